@@ -75,6 +75,11 @@ func SubMessages(md protoreflect.MessageDescriptor) (labels []string, encs [][]b
 			break
 		}
 	}
+	// two different unknown records: several occurrences of the field must keep both, in arrival order (also the only
+	// non-empty values a message type WITHOUT fields has)
+	ua := UnknownAlphabet(md, Reduced)
+	labels = append(labels, "{?unknown=u0}", "{?unknown=u1}")
+	encs = append(encs, ua[0], ua[1])
 	return
 }
 
